@@ -44,6 +44,10 @@ func (o *Obligation) scriptText(withModel bool) string {
 		b.WriteString(l)
 		b.WriteByte('\n')
 	}
+	for _, l := range o.Extra {
+		b.WriteString(l)
+		b.WriteByte('\n')
+	}
 	if o.Kind == "cover" {
 		// satisfiability of the assumptions so far
 		b.WriteString("(check-sat)\n")
